@@ -31,10 +31,21 @@ def real_disassemble(v):
     return {"ok": oc.describe_real_op(o)}
 
 
+REPEAT_FAILURES = []
+
+
 def real_assemble(o):
     b, exc, _, _ = run_real(lambda: o.assemble())
     if exc:
         return {"raise": exc}
+    # encoding an operation does not wear it out: the same object encodes to the same word again (seed C05j: the
+    # rewritten substitute_bitvector shifted the operation's own operand list down to zero)
+    for k in (2, 3):
+        b2, exc2, _, _ = run_real(lambda: o.assemble())
+        if (exc2 or b2 != b) and len(REPEAT_FAILURES) < 3:
+            REPEAT_FAILURES.append({"what": "%s: assemble() call #%d on the same operation object gives %s, the first call gave %s"
+                                            % (o, k, exc2 or (b2.hex() if b2 is not None else None), b.hex() if b is not None else None)})
+            break
     return {"ok": None if b is None else list(b)}
 
 
@@ -99,7 +110,7 @@ def correspondence(ctx, model_available=True):
             break
     impl_asm = [real_assemble(oc.real_op(n, t)) for n, t in insts + other]
 
-    res = {"cases": len(impl_dis) + len(impl_asm), "disagreements": [], "spec_failures": [],
+    res = {"cases": len(impl_dis) + len(impl_asm), "disagreements": [], "spec_failures": list(REPEAT_FAILURES),
            "model_available": model_available, "exhaustive": not quick,
            "distribution": {"words_decoded": len(words), "out_of_range_ints": len(outside),
                             "instruction_instances_encoded": len(insts), "other_assemble_forms": len(other),
